@@ -266,6 +266,7 @@ fn decode_session(bytes: &[u8]) -> (Vec<Value>, Vec<i64>, String) {
     msgs.push(session::notification("textDocument/didOpen", json!({ "textDocument": { "uri": uri, "languageId": "spl", "version": 1, "text": text } })));
     let mut ids = vec![1i64];
     let mut id = 1;
+    let mut version = 1i64;
     let n = 20 + s.below(40);
     for _ in 0..n {
         if s.chance(1, 4) {
@@ -288,7 +289,7 @@ fn decode_session(bytes: &[u8]) -> (Vec<Value>, Vec<i64>, String) {
                 }
             }
             if !cc.is_empty() {
-                msgs.push(session::notification("textDocument/didChange", json!({ "textDocument": { "uri": uri, "version": 2 }, "contentChanges": cc })));
+                msgs.push(session::notification("textDocument/didChange", json!({ "textDocument": { "uri": uri, "version": session::next_version(&mut version) }, "contentChanges": cc })));
             }
         } else {
             id += 1;
